@@ -156,7 +156,8 @@ fn c11_root_value_is_minimax() {
     for fen in C11_ROOTS.iter() {
         let root = Board::from_fen(fen);
         if root.clone().get_legal_moves().is_empty() { continue; }
-        for depth in 1..=3u8 {
+        let max_depth = if std::env::var("VERIF_TIER").map(|t| t == "thorough").unwrap_or(false) { 4u8 } else { 3u8 };
+        for depth in 1..=max_depth {
             clear();
             let mut s = Search::new(&root, None);
             s.start();
